@@ -207,7 +207,7 @@ def check_hist(rec, inp):
                   "ddt_measurement changes under a joint permutation", inp, B.measurement(), ma)
         # --- weight scale ----------------------------------------------------------------------------------
         if w is not None:
-            for c in inp.get("scales", [1e-3, 7., 1e6]):
+            for c in inp.get("scales", [1e-3, 7., 1e6, 1e-10]):
                 Cc = build(x, w * c)
                 rec.check(rec.close(Cc.ll(pts), a, **tol), "C12:scale:" + tag,
                           "log-likelihood changes when all weights are multiplied by a constant", dict(inp, scale=c), Cc.ll(pts), a)
